@@ -1827,10 +1827,10 @@ def evaluate__round(self: XPathFunction, context: ta.ContextType = None) \
     try:
         number = decimal.Decimal(arg)
         exponent = decimal.Decimal(1).scaleb(-precision)
-        if number > 0:
-            return type(arg)(number.quantize(exponent, rounding='ROUND_HALF_UP'))
-        else:
-            return type(arg)(number.quantize(exponent, rounding='ROUND_HALF_DOWN'))
+        rounding = 'ROUND_HALF_UP' if number > 0 else 'ROUND_HALF_DOWN'
+        with decimal.localcontext() as ctx:
+            ctx.prec = max(ctx.prec, number.adjusted() + 2 + min(max(precision, 0), ctx.prec))
+            return type(arg)(number.quantize(exponent, rounding=rounding))
     except TypeError as err:
         if isinstance(context, XPathSchemaContext):
             return []
